@@ -225,6 +225,30 @@ mod k {
         pub fn count(e: Env) -> u32 { sal::get_context_rules_count(&e) }
     }
 
+    // ---- collaborators that answer a value of ANOTHER TYPE than the interface declares (class K4) ----
+    /// a "registry" whose has_claim_topic answers a number instead of a bool
+    #[contract]
+    pub struct OddRegistryMock;
+    #[contractimpl]
+    impl OddRegistryMock {
+        pub fn has_claim_topic(_e: Env, _issuer: Address, _t: u32) -> u32 { 1 }
+    }
+    /// a "claim issuer" whose is_claim_valid answers `true` (the interface returns nothing and vetoes by trapping)
+    #[contract]
+    pub struct OddIssuerMock;
+    #[contractimpl]
+    impl OddIssuerMock {
+        pub fn is_claim_valid(_e: Env, _identity: Address, _topic: u32, _scheme: u32, _sig_data: Bytes, _claim_data: Bytes) -> bool { true }
+    }
+    /// a "policy" whose install answers a number (the interface returns nothing)
+    #[contract]
+    pub struct OddPolicyMock;
+    #[contractimpl]
+    impl OddPolicyMock {
+        pub fn install(_e: Env, _p: Val, _rule: ContextRule, _sa: Address) -> u32 { 7 }
+        pub fn uninstall(_e: Env, _rule: ContextRule, _sa: Address) {}
+    }
+
     /// same variant names and payloads as the (not re-exported) key enum of token_binder/storage.rs;
     /// used only by the `preload` fixture
     #[contracttype]
@@ -234,6 +258,15 @@ mod k {
     }
 }
 use k::*;
+
+// ---- sibling entry paths (class K3): the REAL example contracts that wire the same library functions ----
+// (examples/rwa, the only other wiring of binder / identity storage, is not a workspace member and does not compile
+// against the current access-control API - it is not a reachable entry path)
+mod sa_example {
+    #[path = "/repo/examples/multisig-smart-account/account/src/contract.rs"]
+    pub mod contract;
+}
+use sa_example::contract::{MultisigContract, MultisigContractClient};
 
 // ------------------------------------------------------------------------------------------
 // common helpers
@@ -471,6 +504,93 @@ fn directed_binder(out: &mut Out) {
     }
 }
 
+/// universe = n plain addresses, then the binder contract's OWN address (index n) and another REGISTERED contract (index n + 1)
+fn tb_special<'a>(n: usize) -> Tb<'a> {
+    let e = new_env();
+    let id = e.register(BinderC, ());
+    let c = BinderCClient::new(&e, &id);
+    let mut a: std::vec::Vec<Address> = (0..n).map(|_| Address::generate(&e)).collect();
+    a.push(id.clone());
+    a.push(e.register(RegistryMock, ()));
+    Tb { e, c, u: Uni::of(a) }
+}
+
+/// CLASS histories (seed-independent): special addresses as tokens (K1), unusual values (K2), removal orders over
+/// six elements with every index-valued getter asked for every token and index (K6)
+fn classes_binder(out: &mut Out) {
+    let qs = |t: &Tb| -> std::vec::Vec<String> {
+        let n = t.linked().len() as u32; let all: std::vec::Vec<usize> = (0..t.u.a.len()).collect();
+        let mut idx: std::vec::Vec<u32> = (0..n + 2).collect(); idx.push(u32::MAX);
+        t.queries(true, &all, &idx) };
+    let at = |t: &Tb, i: usize| t.linked()[i] as usize;
+    // K1 / K2: the contract's own address and another registered contract as tokens
+    {
+        let t = tb_special(3); let mut tr = Tr::new(); let (own, other) = (3usize, 4usize);
+        tr.sit(out, "tb.bind", "tb.s.bind_own_address", &format!("TbBind {}", own), t.bind(own), qs(&t));
+        tr.sit(out, "tb.bind", "tb.s.bind_registered_contract", &format!("TbBind {}", other), t.bind(other), qs(&t));
+        tr.sit(out, "tb.bind", "tb.s.bind_own_address_duplicate", &format!("TbBind {}", own), t.bind(own), qs(&t));
+        tr.sit(out, "tb.bind", "tb.s.bind_after_own_address", "TbBind 0", t.bind(0), qs(&t));
+        advance(&t.e, 4_000_000); tr.advance(out, "tb", 4_000_000, "tt", qs(&t));
+        tr.sit(out, "tb.unbind", "tb.s.unbind_own_address", &format!("TbUnbind {}", own), t.unbind(own), qs(&t));
+        tr.sit(out, "tb.unbind", "tb.s.unbind_own_address_absent", &format!("TbUnbind {}", own), t.unbind(own), qs(&t));
+        tr.sit(out, "tb.bind_many", "tb.s.batch_with_own_address", &tb_many_call(&[1, own]), t.bind_many(&[1, own]), qs(&t));
+        tr.sit(out, "tb.bind_many", "tb.s.batch_own_address_already_bound", &tb_many_call(&[own]), t.bind_many(&[own]), qs(&t));
+        tr.sit(out, "tb.bind_many", "tb.s.batch_of_one", &tb_many_call(&[2]), t.bind_many(&[2]), qs(&t));
+        tr.sit(out, "tb.unbind", "tb.s.unbind_registered_contract", &format!("TbUnbind {}", other), t.unbind(other), qs(&t));
+        advance(&t.e, 20); tr.advance(out, "tb", 20, "tt", qs(&t));
+        let n = tr.len(); out.trace("binder/classes-special-addresses", format!("{} {}", tb_header(), list(&tr.ev)), n);
+    }
+    // K6: six tokens, removals in two different orders (middle, second-to-last, first, the one just swapped in, last
+    //     / last, second-to-last, middle, first), re-additions in between
+    {
+        let t = Tb::new(6); let mut tr = Tr::new();
+        tr.sit(out, "tb.bind_many", "tb.s.batch_one_bucket", &tb_many_call(&[0, 1, 2, 3, 4, 5]), t.bind_many(&[0, 1, 2, 3, 4, 5]), qs(&t));
+        let x = at(&t, 2); tr.sit(out, "tb.unbind", "tb.s.unbind_middle_of_six", &format!("TbUnbind {}", x), t.unbind(x), qs(&t));
+        let l = t.linked().len(); let x = at(&t, l - 2); tr.sit(out, "tb.unbind", "tb.s.unbind_second_to_last", &format!("TbUnbind {}", x), t.unbind(x), qs(&t));
+        let x = at(&t, 0); tr.sit(out, "tb.unbind", "tb.s.unbind_first", &format!("TbUnbind {}", x), t.unbind(x), qs(&t));
+        let x = at(&t, 0); tr.sit(out, "tb.unbind", "tb.s.unbind_just_swapped_in", &format!("TbUnbind {}", x), t.unbind(x), qs(&t));
+        let l = t.linked().len(); let x = at(&t, l - 1); tr.sit(out, "tb.unbind", "tb.s.unbind_last", &format!("TbUnbind {}", x), t.unbind(x), qs(&t));
+        tr.sit(out, "tb.bind_many", "tb.s.batch_readd_after_removals", &tb_many_call(&[4, 2, 0]), t.bind_many(&[4, 2, 0]), qs(&t));
+        advance(&t.e, 600_000); tr.advance(out, "tb", 600_000, "tt", qs(&t));
+        let x = at(&t, 1); tr.sit(out, "tb.unbind", "tb.s.unbind_second_of_four", &format!("TbUnbind {}", x), t.unbind(x), qs(&t));
+        let n = tr.len(); out.trace("binder/classes-removal-order-a", format!("{} {}", tb_header(), list(&tr.ev)), n);
+    }
+    {
+        let t = Tb::new(6); let mut tr = Tr::new();
+        for x in 0..6 { tr.sit(out, "tb.bind", "tb.s.bind_one_by_one", &format!("TbBind {}", x), t.bind(x), qs(&t)); }
+        let l = t.linked().len(); let x = at(&t, l - 1); tr.sit(out, "tb.unbind", "tb.s.unbind_last", &format!("TbUnbind {}", x), t.unbind(x), qs(&t));
+        let l = t.linked().len(); let x = at(&t, l - 2); tr.sit(out, "tb.unbind", "tb.s.unbind_second_to_last", &format!("TbUnbind {}", x), t.unbind(x), qs(&t));
+        let x = at(&t, 1); tr.sit(out, "tb.unbind", "tb.s.unbind_second_of_four", &format!("TbUnbind {}", x), t.unbind(x), qs(&t));
+        let x = at(&t, 0); tr.sit(out, "tb.unbind", "tb.s.unbind_first", &format!("TbUnbind {}", x), t.unbind(x), qs(&t));
+        tr.sit(out, "tb.bind", "tb.s.readd_after_removal", "TbBind 5", t.bind(5), qs(&t));
+        let x = at(&t, 1); tr.sit(out, "tb.unbind", "tb.s.unbind_middle_of_three", &format!("TbUnbind {}", x), t.unbind(x), qs(&t));
+        advance(&t.e, 100); tr.advance(out, "tb", 100, "tt", qs(&t));
+        let n = tr.len(); out.trace("binder/classes-removal-order-b", format!("{} {}", tb_header(), list(&tr.ev)), n);
+    }
+    // K2: removals and additions exactly at the bucket edges (index BUCKET_SIZE - 1, BUCKET_SIZE, 2 * BUCKET_SIZE - 1)
+    {
+        let bs = tbl::BUCKET_SIZE as usize;
+        let t = Tb::new(2 * bs + 4); let mut tr = Tr::new();
+        let pr = |t: &Tb, toks: &[usize]| -> std::vec::Vec<String> {
+            let c = t.linked().len() as u32; let b = bs as u32;
+            let mut idx: std::vec::Vec<u32> = vec![0, b - 2, b - 1, b, b + 1, 2 * b - 2, 2 * b - 1, 2 * b, 2 * b + 1, c.saturating_sub(1), c, u32::MAX];
+            idx.sort(); idx.dedup();
+            let mut tk: std::vec::Vec<usize> = vec![0, bs - 1, bs, 2 * bs - 1, 2 * bs, 2 * bs + 1]; tk.extend_from_slice(toks); tk.sort(); tk.dedup();
+            t.queries(true, &tk, &idx) };
+        let a: std::vec::Vec<usize> = (0..2 * bs).collect();
+        tr.sit(out, "tb.bind_many", "tb.s.batch_two_full_buckets", &tb_many_call(&a), t.bind_many(&a), pr(&t, &[]));
+        tr.sit(out, "tb.bind_many", "tb.s.batch_opens_third_bucket", &tb_many_call(&[2 * bs, 2 * bs + 1]), t.bind_many(&[2 * bs, 2 * bs + 1]), pr(&t, &[]));
+        let x = at(&t, bs - 1); tr.sit(out, "tb.unbind", "tb.s.unbind_at_last_slot_of_bucket", &format!("TbUnbind {}", x), t.unbind(x), pr(&t, &[x]));
+        let x = at(&t, bs); tr.sit(out, "tb.unbind", "tb.s.unbind_at_first_slot_of_bucket", &format!("TbUnbind {}", x), t.unbind(x), pr(&t, &[x]));
+        let x = at(&t, 2 * bs - 1); tr.sit(out, "tb.unbind", "tb.s.unbind_last_at_bucket_end", &format!("TbUnbind {}", x), t.unbind(x), pr(&t, &[x]));
+        advance(&t.e, 17_281); tr.advance(out, "tb", 17_281, "tt", pr(&t, &[]));
+        tr.sit(out, "tb.bind", "tb.s.bind_fills_bucket", &format!("TbBind {}", 2 * bs + 2), t.bind(2 * bs + 2), pr(&t, &[2 * bs + 2]));
+        tr.sit(out, "tb.bind", "tb.s.bind_opens_bucket", &format!("TbBind {}", 2 * bs + 3), t.bind(2 * bs + 3), pr(&t, &[2 * bs + 3]));
+        let x = at(&t, 2 * bs - 1); tr.sit(out, "tb.unbind", "tb.s.unbind_second_to_last_across_buckets", &format!("TbUnbind {}", x), t.unbind(x), pr(&t, &[x, 2 * bs + 3]));
+        let n = tr.len(); out.trace("binder/classes-bucket-edges", format!("{} {}", tb_header(), list(&tr.ev)), n);
+    }
+}
+
 fn run_binder(out: &mut Out, rng: &mut Rng) {
     let bs = tbl::BUCKET_SIZE as usize;
     let maxt = tbl::MAX_TOKENS as usize;
@@ -478,9 +598,10 @@ fn run_binder(out: &mut Out, rng: &mut Rng) {
     let scale = out.cfg.scale as usize;
     let donly = directed_only();
     directed_binder(out);
+    classes_binder(out);
 
     // A. small universe, every query after every call
-    let na = if donly { 0 } else if thorough { 400 } else { 40 } * scale;
+    let na = if donly { 0 } else if thorough { 400 } else { 37 } * scale;
     for _ in 0..na {
         let nu = 3 + rng.below(6) as usize;
         let t = Tb::new(nu);
@@ -544,7 +665,7 @@ fn run_binder(out: &mut Out, rng: &mut Rng) {
     }
 
     // B. histories around the bucket boundaries (BUCKET_SIZE, 2*BUCKET_SIZE)
-    let nb = if donly { 0 } else if thorough { 120 } else { 14 } * scale;
+    let nb = if donly { 0 } else if thorough { 120 } else { 13 } * scale;
     for it in 0..nb {
         let nu = 2 * bs + 40;
         let t = Tb::new(nu);
@@ -802,6 +923,87 @@ fn directed_docs(out: &mut Out) {
     }
 }
 
+// ---- CLASS histories of the document manager: names / hashes as raw 32-byte values (K2), aliasing (K5), removal orders (K6) ----
+impl<'a> Dm<'a> {
+    fn set_raw(&mut self, name: &BytesN<32>, k: u64, len: u64, hash: &BytesN<32>, dts: u64) -> (String, Option<String>) {
+        self.ts += dts;
+        let ts = self.ts;
+        self.e.ledger().with_mut(|l| l.timestamp = ts);
+        let r = unit_ok(self.c.try_set_doc(name, &uri_of(&self.e, k, len), hash));
+        (format!("DmSet {} (Build_doc {} {} {})", bn32_id(name), uri_coq(k, len), bn32_id(hash), ts), r)
+    }
+    fn remove_raw(&self, name: &BytesN<32>) -> (String, Option<String>) { (format!("DmRemove {}", bn32_id(name)), unit_ok(self.c.try_remove_doc(name))) }
+    fn queries_raw(&self, names: &[BytesN<32>], idxs: &[u32], bks: &[u32]) -> std::vec::Vec<String> {
+        let mut q = vec![];
+        for n in names {
+            let r = match self.c.try_get(n) { Ok(Ok(d)) => okv(&doc_coq(&d)), _ => "Fail".into() };
+            q.push(format!("(DqGet {}, DaDoc {})", bn32_id(n), r));
+        }
+        q.extend(self.queries(&[], idxs, bks));
+        q
+    }
+    fn name_at(&self, i: u32) -> BytesN<32> { match self.c.try_by_index(&i) { Ok(Ok(x)) => x.0, _ => bn32(&self.e, 999_999) } }
+}
+fn classes_docs(out: &mut Out) {
+    let mk = |e: &Env| -> std::vec::Vec<BytesN<32>> {
+        vec![BytesN::from_array(e, &[0u8; 32]), BytesN::from_array(e, &[0xffu8; 32]), bn32(e, 5), bn32(e, 6), bn32(e, 7), bn32(e, 8)] };
+    let qs = |d: &Dm, names: &[BytesN<32>]| { let mut idx: std::vec::Vec<u32> = (0..d.count() + 2).collect(); idx.push(u32::MAX); d.queries_raw(names, &idx, &[0, 1, 1000]) };
+    // order a: values and aliasing first, then middle / second-to-last / first / just swapped in / last
+    {
+        let mut d = Dm::new(); let mut tr = Tr::new(); let nm = mk(&d.e);
+        let (c, r) = d.set_raw(&nm[0], 3, 4, &nm[1], 1); tr.sit(out, "dm.set", "dm.s.name_all_zero_hash_all_ones", &c, r, qs(&d, &nm));
+        let (c, r) = d.set_raw(&nm[1], 4, 1, &nm[0], 1); tr.sit(out, "dm.set", "dm.s.name_all_ones_hash_all_zero", &c, r, qs(&d, &nm));
+        let (c, r) = d.set_raw(&nm[2], 5, 3, &nm[2], 1); tr.sit(out, "dm.set", "dm.s.name_equals_hash", &c, r, qs(&d, &nm));
+        let (c, r) = d.set_raw(&nm[2], 5, 3, &nm[2], 0); tr.sit(out, "dm.set", "dm.s.update_identical", &c, r, qs(&d, &nm));
+        let (c, r) = d.set_raw(&nm[2], 6, 7, &nm[2], 3); tr.sit(out, "dm.set", "dm.s.update_same_hash_other_uri", &c, r, qs(&d, &nm));
+        for i in 3..6 { let (c, r) = d.set_raw(&nm[i], i as u64, 2, &nm[0], 1); tr.sit(out, "dm.set", "dm.s.set_new", &c, r, qs(&d, &nm)); }
+        advance(&d.e, 4_000_000); tr.advance(out, "dm", 4_000_000, "tt", qs(&d, &nm));
+        let x = d.name_at(2); let (c, r) = d.remove_raw(&x); tr.sit(out, "dm.remove", "dm.s.remove_middle_of_six", &c, r, qs(&d, &nm));
+        let x = d.name_at(d.count() - 2); let (c, r) = d.remove_raw(&x); tr.sit(out, "dm.remove", "dm.s.remove_second_to_last", &c, r, qs(&d, &nm));
+        let x = d.name_at(0); let (c, r) = d.remove_raw(&x); tr.sit(out, "dm.remove", "dm.s.remove_first", &c, r, qs(&d, &nm));
+        let x = d.name_at(0); let (c, r) = d.remove_raw(&x); tr.sit(out, "dm.remove", "dm.s.remove_just_swapped_in", &c, r, qs(&d, &nm));
+        let x = d.name_at(d.count() - 1); let (c, r) = d.remove_raw(&x); tr.sit(out, "dm.remove", "dm.s.remove_last", &c, r, qs(&d, &nm));
+        let (c, r) = d.set_raw(&nm[0], 9, 2, &nm[3], 1); tr.sit(out, "dm.set", "dm.s.readd_after_removal", &c, r, qs(&d, &nm));
+        let (c, r) = d.set_raw(&nm[3], 1, 1, &nm[3], 1); tr.sit(out, "dm.set", "dm.s.readd_after_removal", &c, r, qs(&d, &nm));
+        advance(&d.e, 20); tr.advance(out, "dm", 20, "tt", qs(&d, &nm));
+        let n = tr.len(); out.trace("docs/classes-order-a", format!("{} {}", dm_header(), list(&tr.ev)), n);
+    }
+    // order b: last / second-to-last / second of four / first
+    {
+        let mut d = Dm::new(); let mut tr = Tr::new(); let nm = mk(&d.e);
+        for i in 0..6 { let (c, r) = d.set_raw(&nm[i], 1 + i as u64, 1 + i as u64 % 3, &nm[5 - i], i as u64 % 2); tr.sit(out, "dm.set", "dm.s.set_new", &c, r, qs(&d, &nm)); }
+        let x = d.name_at(d.count() - 1); let (c, r) = d.remove_raw(&x); tr.sit(out, "dm.remove", "dm.s.remove_last", &c, r, qs(&d, &nm));
+        let x = d.name_at(d.count() - 2); let (c, r) = d.remove_raw(&x); tr.sit(out, "dm.remove", "dm.s.remove_second_to_last", &c, r, qs(&d, &nm));
+        let x = d.name_at(1); let (c, r) = d.remove_raw(&x); tr.sit(out, "dm.remove", "dm.s.remove_second_of_four", &c, r, qs(&d, &nm));
+        let x = d.name_at(0); let (c, r) = d.remove_raw(&x); tr.sit(out, "dm.remove", "dm.s.remove_first", &c, r, qs(&d, &nm));
+        advance(&d.e, 600_000); tr.advance(out, "dm", 600_000, "tt", qs(&d, &nm));
+        let (c, r) = d.set_raw(&nm[5], 2, 2, &nm[1], 1); tr.sit(out, "dm.set", "dm.s.readd_after_removal", &c, r, qs(&d, &nm));
+        let x = d.name_at(1); let (c, r) = d.remove_raw(&x); tr.sit(out, "dm.remove", "dm.s.remove_middle_of_three", &c, r, qs(&d, &nm));
+        let n = tr.len(); out.trace("docs/classes-order-b", format!("{} {}", dm_header(), list(&tr.ev)), n);
+    }
+    // K2: removals and additions exactly at the bucket edge (index BUCKET_SIZE - 1, BUCKET_SIZE)
+    {
+        let bs = dml::BUCKET_SIZE as u64;
+        let mut d = Dm::new(); let mut tr = Tr::new();
+        let pr = |d: &Dm, names: &[u64]| { let c = d.count(); let b = bs as u32;
+            let mut idx: std::vec::Vec<u32> = vec![0, b - 2, b - 1, b, b + 1, c.saturating_sub(1), c, c + 1, u32::MAX]; idx.sort(); idx.dedup();
+            let mut nm: std::vec::Vec<u64> = vec![0, bs - 1, bs, bs + 1]; nm.extend_from_slice(names); nm.sort(); nm.dedup();
+            d.queries(&nm, &idx, &[0, 1, 2]) };
+        let low = |d: &Dm, i: u32| -> u64 { let a = d.name_at(i).to_array(); let mut b8 = [0u8; 8]; b8.copy_from_slice(&a[24..32]); u64::from_be_bytes(b8) };
+        for n in 0..bs + 2 { let (c, r) = d.set_d(n, 1 + n % 9, 1 + n % 4, n % 7, n % 2);
+            let q = if n + 3 >= bs { pr(&d, &[n]) } else { d.queries(&[n], &[n as u32], &[]) };
+            tr.sit(out, "dm.set", if n == bs { "dm.s.set_opens_bucket" } else { "dm.s.set_new" }, &c, r, q); }
+        let x = low(&d, (bs - 1) as u32); let (c, r) = d.remove(x); tr.sit(out, "dm.remove", "dm.s.remove_at_last_slot_of_bucket", &c, r, pr(&d, &[x]));
+        let x = low(&d, bs as u32); let (c, r) = d.remove(x); tr.sit(out, "dm.remove", "dm.s.remove_last_alone_in_its_bucket", &c, r, pr(&d, &[x]));
+        let x = low(&d, (bs - 1) as u32); let (c, r) = d.remove(x); tr.sit(out, "dm.remove", "dm.s.remove_last_at_bucket_end", &c, r, pr(&d, &[x]));
+        advance(&d.e, 17_281); tr.advance(out, "dm", 17_281, "tt", pr(&d, &[]));
+        let (c, r) = d.set_d(bs + 7, 3, 3, 3, 1); tr.sit(out, "dm.set", "dm.s.set_fills_bucket", &c, r, pr(&d, &[bs + 7]));
+        let (c, r) = d.set_d(bs + 8, 4, 4, 4, 1); tr.sit(out, "dm.set", "dm.s.set_reopens_bucket", &c, r, pr(&d, &[bs + 7, bs + 8]));
+        let x = low(&d, (bs - 1) as u32); let (c, r) = d.remove(x); tr.sit(out, "dm.remove", "dm.s.remove_second_to_last_across_buckets", &c, r, pr(&d, &[x, bs + 8]));
+        let n = tr.len(); out.trace("docs/classes-bucket-edge", format!("{} {}", dm_header(), list(&tr.ev)), n);
+    }
+}
+
 fn run_docs(out: &mut Out, rng: &mut Rng) {
     let bs = dml::BUCKET_SIZE as u64;
     let maxd = dml::MAX_DOCUMENTS as u64;
@@ -810,9 +1012,10 @@ fn run_docs(out: &mut Out, rng: &mut Rng) {
     let scale = out.cfg.scale as usize;
     let donly = directed_only();
     directed_docs(out);
+    classes_docs(out);
 
     // A. small universe, every query after every call
-    let na = if donly { 0 } else if thorough { 300 } else { 30 } * scale;
+    let na = if donly { 0 } else if thorough { 300 } else { 28 } * scale;
     for _ in 0..na {
         let nu = 2 + rng.below(5);
         let mut d = Dm::new();
@@ -861,7 +1064,7 @@ fn run_docs(out: &mut Out, rng: &mut Rng) {
     }
 
     // B. around the bucket boundaries
-    let nb = if donly { 0 } else if thorough { 100 } else { 12 } * scale;
+    let nb = if donly { 0 } else if thorough { 100 } else { 11 } * scale;
     for it in 0..nb {
         let mut d = Dm::new();
         let mut tr = Tr::new();
@@ -1027,6 +1230,61 @@ fn directed_cti(out: &mut Out) {
     let n = tr.len(); out.trace("cti/directed", format!("{} {}", cti_header(), list(&tr.ev)), n);
 }
 
+/// CLASS histories of claim topics / trusted issuers: the registry's own address and another registered contract as
+/// issuers (K1), topics 0 and u32::MAX, repeated / unknown topics in an update (K2), an update to the same set (K5),
+/// removals of the middle / second-to-last / first / last of five topics and of five issuers (K6)
+fn classes_cti(out: &mut Out) {
+    let e = new_env();
+    let id = e.register(CtiC, ());
+    let c = CtiCClient::new(&e, &id);
+    let mut a: std::vec::Vec<Address> = (0..3).map(|_| Address::generate(&e)).collect();
+    a.push(id.clone()); a.push(e.register(RegistryMock, ()));
+    let t = Ct { e, c, u: Uni::of(a) }; let mut tr = Tr::new();
+    let (own, other) = (3usize, 4usize); let mx = u32::MAX as u64;
+    let topics = [0u64, mx, 1, 2, 3, 9]; let issuers = [0usize, 1, 2, 3, 4];
+    let qs = |t: &Ct| t.queries(&topics, &issuers, true);
+    let cur_t = |t: &Ct| -> std::vec::Vec<u64> { tryv!(t.c.try_get_claim_topics()).map(|v| v.iter().map(|x| x as u64).collect()).unwrap_or_default() };
+    let cur_i = |t: &Ct| -> std::vec::Vec<u64> { tryv!(t.c.try_get_trusted_issuers()).map(|v| t.u.ids(&v)).unwrap_or_default() };
+    let add_t = |t: &Ct, x: u64| (format!("CtAddTopic {}", x), unit_ok(t.c.try_add_claim_topic(&(x as u32))));
+    let rem_t = |t: &Ct, x: u64| (format!("CtRemoveTopic {}", x), unit_ok(t.c.try_remove_claim_topic(&(x as u32))));
+    let add_i = |t: &Ct, i: usize, ts: &[u64]| (format!("CtAddIssuer {} {}", i, nlist(ts)), unit_ok(t.c.try_add_trusted_issuer(&t.u.a[i], &t.u32s(ts))));
+    let upd_i = |t: &Ct, i: usize, ts: &[u64]| (format!("CtUpdateIssuer {} {}", i, nlist(ts)), unit_ok(t.c.try_update_issuer_topics(&t.u.a[i], &t.u32s(ts))));
+    let rem_i = |t: &Ct, i: usize| (format!("CtRemoveIssuer {}", i), unit_ok(t.c.try_remove_trusted_issuer(&t.u.a[i])));
+    let at = |l: std::vec::Vec<u64>, back: usize| -> u64 { if l.len() > back { l[l.len() - 1 - back] } else { 0 } };
+    let (c, r) = add_t(&t, 0); tr.sit(out, "cti.add_topic", "cti.s.add_topic_zero", &c, r, qs(&t));
+    let (c, r) = add_t(&t, mx); tr.sit(out, "cti.add_topic", "cti.s.add_topic_u32_max", &c, r, qs(&t));
+    let (c, r) = add_t(&t, 0); tr.sit(out, "cti.add_topic", "cti.s.add_topic_zero_duplicate", &c, r, qs(&t));
+    for x in 1..=3u64 { let (c, r) = add_t(&t, x); tr.sit(out, "cti.add_topic", "cti.s.add_topic", &c, r, qs(&t)); }
+    let (c, r) = add_i(&t, own, &[0, mx]); tr.sit(out, "cti.add_issuer", "cti.s.add_issuer_own_address", &c, r, qs(&t));
+    let (c, r) = add_i(&t, own, &[1]); tr.sit(out, "cti.add_issuer", "cti.s.add_issuer_own_address_duplicate", &c, r, qs(&t));
+    let (c, r) = add_i(&t, other, &[1]); tr.sit(out, "cti.add_issuer", "cti.s.add_issuer_registered_contract", &c, r, qs(&t));
+    let (c, r) = add_i(&t, 0, &[1, 2, 3]); tr.sit(out, "cti.add_issuer", "cti.s.add_issuer", &c, r, qs(&t));
+    let (c, r) = add_i(&t, 1, &[2, 0]); tr.sit(out, "cti.add_issuer", "cti.s.add_issuer", &c, r, qs(&t));
+    let (c, r) = add_i(&t, 2, &[3]); tr.sit(out, "cti.add_issuer", "cti.s.add_issuer", &c, r, qs(&t));
+    let (c, r) = upd_i(&t, 0, &[1, 2, 3]); tr.sit(out, "cti.update_issuer", "cti.s.update_same_topics", &c, r, qs(&t));
+    let (c, r) = upd_i(&t, 0, &[3, 1, 2]); tr.sit(out, "cti.update_issuer", "cti.s.update_permuted_same_set", &c, r, qs(&t));
+    let (c, r) = upd_i(&t, 0, &[1, 1]); tr.sit(out, "cti.update_issuer", "cti.s.update_repeated_topic", &c, r, qs(&t));
+    let (c, r) = upd_i(&t, 0, &[1, 9]); tr.sit(out, "cti.update_issuer", "cti.s.update_unknown_topic", &c, r, qs(&t));
+    let (c, r) = upd_i(&t, own, &[mx]); tr.sit(out, "cti.update_issuer", "cti.s.update_own_address", &c, r, qs(&t));
+    advance(&t.e, 4_000_000); tr.advance(out, "cti", 4_000_000, "tt", qs(&t));
+    // issuers in order [own, other, 0, 1, 2]
+    let i = cur_i(&t).get(2).cloned().unwrap_or(0) as usize; let (c, r) = rem_i(&t, i); tr.sit(out, "cti.remove_issuer", "cti.s.remove_issuer_middle_of_five", &c, r, qs(&t));
+    let i = at(cur_i(&t), 1) as usize; let (c, r) = rem_i(&t, i); tr.sit(out, "cti.remove_issuer", "cti.s.remove_issuer_second_to_last", &c, r, qs(&t));
+    let (c, r) = rem_i(&t, own); tr.sit(out, "cti.remove_issuer", "cti.s.remove_issuer_own_address", &c, r, qs(&t));
+    let i = at(cur_i(&t), 0) as usize; let (c, r) = rem_i(&t, i); tr.sit(out, "cti.remove_issuer", "cti.s.remove_issuer_last_of_two", &c, r, qs(&t));
+    let (c, r) = add_i(&t, own, &[mx, 2]); tr.sit(out, "cti.add_issuer", "cti.s.readd_own_address", &c, r, qs(&t));
+    let (c, r) = add_i(&t, 1, &[0, 1, 2, 3, mx]); tr.sit(out, "cti.add_issuer", "cti.s.add_issuer_all_topics", &c, r, qs(&t));
+    // topics in order [0, MAX, 1, 2, 3]
+    let x = cur_t(&t).get(2).cloned().unwrap_or(0); let (c, r) = rem_t(&t, x); tr.sit(out, "cti.remove_topic", "cti.s.remove_topic_middle_of_five", &c, r, qs(&t));
+    let x = at(cur_t(&t), 1); let (c, r) = rem_t(&t, x); tr.sit(out, "cti.remove_topic", "cti.s.remove_topic_second_to_last", &c, r, qs(&t));
+    let (c, r) = rem_t(&t, 0); tr.sit(out, "cti.remove_topic", "cti.s.remove_topic_zero", &c, r, qs(&t));
+    let x = at(cur_t(&t), 0); let (c, r) = rem_t(&t, x); tr.sit(out, "cti.remove_topic", "cti.s.remove_topic_last_of_two", &c, r, qs(&t));
+    let (c, r) = add_t(&t, 0); tr.sit(out, "cti.add_topic", "cti.s.readd_topic_zero", &c, r, qs(&t));
+    let (c, r) = rem_t(&t, mx); tr.sit(out, "cti.remove_topic", "cti.s.remove_topic_u32_max", &c, r, qs(&t));
+    advance(&t.e, 100); tr.advance(out, "cti", 100, "tt", qs(&t));
+    let n = tr.len(); out.trace("cti/classes", format!("{} {}", cti_header(), list(&tr.ev)), n);
+}
+
 fn run_cti(out: &mut Out, rng: &mut Rng) {
     let maxt = ctim::MAX_CLAIM_TOPICS as u64;
     let maxi = ctim::MAX_ISSUERS as usize;
@@ -1034,8 +1292,9 @@ fn run_cti(out: &mut Out, rng: &mut Rng) {
     let scale = out.cfg.scale as usize;
     let donly = directed_only();
     directed_cti(out);
+    classes_cti(out);
     // A. small universes
-    let na = if donly { 0 } else if thorough { 400 } else { 45 } * scale;
+    let na = if donly { 0 } else if thorough { 400 } else { 42 } * scale;
     for _ in 0..na {
         let nt = 2 + rng.below(5); let ni = 2 + rng.below(3) as usize;
         let t = Ct::new(ni);
@@ -1229,6 +1488,105 @@ fn directed_keys(out: &mut Out) {
     }
 }
 
+// ---- CLASS histories of the claim-issuer keys ----
+impl<'a> Ck<'a> {
+    /// registries: `nreg` RegistryMocks, then (K1 / K4) the claim issuer's OWN address, an address where NO contract lives,
+    /// a contract whose has_claim_topic answers a NUMBER, and a contract WITHOUT that function
+    fn new_special(nreg: usize) -> Ck<'a> {
+        let e = new_env();
+        let id = e.register(KeysC, ());
+        let c = KeysCClient::new(&e, &id);
+        let mut regs: std::vec::Vec<Address> = (0..nreg).map(|_| e.register(RegistryMock, ())).collect();
+        regs.push(id.clone()); regs.push(Address::generate(&e)); regs.push(e.register(OddRegistryMock, ())); regs.push(e.register(PolicyMock, ()));
+        let u = Uni::of(regs.clone());
+        Ck { e, c, regs, u }
+    }
+    /// raw key bytes; `has` = what the registry at `reg` answers (as the model's input); mode is set on RegistryMocks only
+    fn allow_raw(&self, pk: &Bytes, reg: usize, mode: Option<u32>, scheme: u64, t: u64) -> (String, Option<String>) {
+        if let Some(m) = mode { RegistryMockClient::new(&self.e, &self.regs[reg]).set_mode(&m); }
+        let r = unit_ok(self.c.try_allow_key(pk, &self.regs[reg], &(scheme as u32), &(t as u32)));
+        let has = match mode { Some(0) => "(Ok true)", Some(1) => "(Ok false)", _ => "Fail" };
+        (format!("CkAllow {} {} {} {} {}", pk_id(pk), reg, scheme, t, has), r)
+    }
+    fn remove_raw(&self, pk: &Bytes, reg: usize, scheme: u64, t: u64) -> (String, Option<String>) {
+        let r = unit_ok(self.c.try_remove_key(pk, &self.regs[reg], &(scheme as u32), &(t as u32)));
+        (format!("CkRemove {} {} {} {}", pk_id(pk), reg, scheme, t), r)
+    }
+    fn queries_raw(&self, topics: &[u64], keys: &[(Bytes, u64)], regs: &[usize]) -> std::vec::Vec<String> {
+        let mut q = vec![];
+        for &t in topics {
+            let r = match self.c.try_keys_for_topic(&(t as u32)) {
+                Ok(Ok(v)) => okv(&list(&v.iter().map(|k| format!("({}, {})", pk_id(&k.public_key), k.scheme)).collect::<std::vec::Vec<_>>())), _ => "Fail".into() };
+            q.push(format!("(KqKeysForTopic {}, KaKeys {})", t, r));
+        }
+        for (pk, sc) in keys {
+            let kid = pk_id(pk);
+            let r = match self.c.try_registries(pk, &(*sc as u32)) { Ok(Ok(v)) => okv(&nlist(&self.u.ids(&v))), _ => "Fail".into() };
+            q.push(format!("(KqRegistries ({}, {}), KaRegs {})", kid, sc, r));
+            for &t in topics { q.push(match tryv!(self.c.try_allowed_topic(pk, &(*sc as u32), &(t as u32))) {
+                Some(x) => format!("(KqAllowedTopic ({}, {}) {}, KaBool {})", kid, sc, t, b(x)), None => format!("(KqAllowedTopic ({}, {}) {}, KaTrap)", kid, sc, t) }); }
+            for &rg in regs { q.push(match tryv!(self.c.try_allowed_registry(pk, &(*sc as u32), &self.regs[rg])) {
+                Some(x) => format!("(KqAllowedRegistry ({}, {}) {}, KaBool {})", kid, sc, rg, b(x)), None => format!("(KqAllowedRegistry ({}, {}) {}, KaTrap)", kid, sc, rg) }); }
+        }
+        q
+    }
+}
+fn classes_keys(out: &mut Out) {
+    let mx = u32::MAX as u64;
+    // K1 / K4: the registry is the claim issuer itself / no contract / answers another type / lacks the function;
+    // K2: topic and scheme 0 and u32::MAX, key byte strings of unusual shapes
+    {
+        let k = Ck::new_special(2); let mut tr = Tr::new();
+        let (own, nocontract, odd_t, nofn) = (2usize, 3usize, 4usize, 5usize);
+        let k7 = pk_bytes(&k.e, 7);
+        let zero8 = Bytes::from_array(&k.e, &[0u8; 8]); let zero1 = Bytes::from_array(&k.e, &[0u8; 1]);
+        let zero32 = Bytes::from_array(&k.e, &[0u8; 32]); let ones33 = Bytes::from_array(&k.e, &[0xffu8; 33]);
+        let topics = [0u64, 1, mx]; let regs = [0usize, 1, own, nocontract, odd_t, nofn];
+        let keys: std::vec::Vec<(Bytes, u64)> = vec![(k7.clone(), 101), (k7.clone(), 0), (k7.clone(), mx), (zero8.clone(), 101), (zero1.clone(), 101), (zero32.clone(), 101), (ones33.clone(), 101), (Bytes::new(&k.e), 101)];
+        let qs = |k: &Ck| k.queries_raw(&topics, &keys, &regs);
+        let (c, r) = k.allow_raw(&k7, own, None, 101, 1); tr.sit(out, "ck.allow", "ck.s.allow_registry_is_own_address", &c, r, qs(&k));
+        let (c, r) = k.allow_raw(&k7, nocontract, None, 101, 1); tr.sit(out, "ck.allow", "ck.s.allow_registry_not_a_contract", &c, r, qs(&k));
+        let (c, r) = k.allow_raw(&k7, odd_t, None, 101, 1); tr.sit(out, "ck.allow", "ck.s.allow_registry_answers_other_type", &c, r, qs(&k));
+        let (c, r) = k.allow_raw(&k7, nofn, None, 101, 1); tr.sit(out, "ck.allow", "ck.s.allow_registry_without_the_function", &c, r, qs(&k));
+        let (c, r) = k.allow_raw(&k7, 0, Some(0), 101, 0); tr.sit(out, "ck.allow", "ck.s.allow_topic_zero", &c, r, qs(&k));
+        let (c, r) = k.allow_raw(&k7, 0, Some(0), 101, mx); tr.sit(out, "ck.allow", "ck.s.allow_topic_u32_max", &c, r, qs(&k));
+        let (c, r) = k.allow_raw(&k7, 0, Some(0), 0, 1); tr.sit(out, "ck.allow", "ck.s.allow_scheme_zero", &c, r, qs(&k));
+        let (c, r) = k.allow_raw(&k7, 0, Some(0), mx, 1); tr.sit(out, "ck.allow", "ck.s.allow_scheme_u32_max", &c, r, qs(&k));
+        let (c, r) = k.allow_raw(&zero8, 1, Some(0), 101, 1); tr.sit(out, "ck.allow", "ck.s.allow_key_eight_zero_bytes", &c, r, qs(&k));
+        let (c, r) = k.allow_raw(&zero1, 1, Some(0), 101, 1); tr.sit(out, "ck.allow", "ck.s.allow_key_one_zero_byte", &c, r, qs(&k));
+        let (c, r) = k.allow_raw(&zero32, 1, Some(0), 101, 1); tr.sit(out, "ck.allow", "ck.s.allow_key_32_zero_bytes", &c, r, qs(&k));
+        let (c, r) = k.allow_raw(&ones33, 1, Some(0), 101, 1); tr.sit(out, "ck.allow", "ck.s.allow_key_33_bytes", &c, r, qs(&k));
+        let (c, r) = k.allow_raw(&zero1, 1, Some(0), 101, 1); tr.sit(out, "ck.allow", "ck.s.allow_key_one_zero_byte_duplicate", &c, r, qs(&k));
+        advance(&k.e, 4_000_000); tr.advance(out, "ck", 4_000_000, "tt", qs(&k));
+        let (c, r) = k.remove_raw(&zero32, 1, 101, 1); tr.sit(out, "ck.remove", "ck.s.remove_key_32_zero_bytes", &c, r, qs(&k));
+        let (c, r) = k.remove_raw(&zero8, 1, 101, 1); tr.sit(out, "ck.remove", "ck.s.remove_key_eight_zero_bytes", &c, r, qs(&k));
+        let (c, r) = k.remove_raw(&k7, 0, 101, 0); tr.sit(out, "ck.remove", "ck.s.remove_topic_zero", &c, r, qs(&k));
+        let (c, r) = k.remove_raw(&k7, own, 101, 1); tr.sit(out, "ck.remove", "ck.s.remove_registry_own_address_absent", &c, r, qs(&k));
+        advance(&k.e, 20); tr.advance(out, "ck", 20, "tt", qs(&k));
+        let n = tr.len(); out.trace("keys/classes-collaborators-and-values", format!("{} {}", ck_header(), list(&tr.ev)), n);
+    }
+    // K6: five pairs of one key and five keys of one topic; middle / second-to-last / first / last removed, then re-added
+    {
+        let k = Ck::new(2); let mut tr = Tr::new();
+        let topics = [1u64, 2, 3, 5]; let keys = [(7u64, 101u64), (1, 101), (2, 101), (3, 101), (4, 101), (5, 101)]; let regs = [0usize, 1];
+        let qs = |k: &Ck| k.queries(&topics, &keys, &regs, true);
+        for (t, rg) in [(1u64, 0usize), (1, 1), (2, 0), (2, 1), (3, 0)] { let (c, r) = k.allow(7, rg, 101, t, 0); tr.sit(out, "ck.allow", "ck.s.allow_five_pairs", &c, r, qs(&k)); }
+        let (c, r) = k.remove(7, 0, 101, 2); tr.sit(out, "ck.remove", "ck.s.remove_middle_pair_of_five", &c, r, qs(&k));
+        let (c, r) = k.remove(7, 1, 101, 2); tr.sit(out, "ck.remove", "ck.s.remove_second_to_last_pair", &c, r, qs(&k));
+        let (c, r) = k.remove(7, 0, 101, 1); tr.sit(out, "ck.remove", "ck.s.remove_first_pair", &c, r, qs(&k));
+        let (c, r) = k.remove(7, 0, 101, 3); tr.sit(out, "ck.remove", "ck.s.remove_last_pair", &c, r, qs(&k));
+        let (c, r) = k.allow(7, 0, 101, 2, 0); tr.sit(out, "ck.allow", "ck.s.readd_after_removal", &c, r, qs(&k));
+        advance(&k.e, 600_000); tr.advance(out, "ck", 600_000, "tt", qs(&k));
+        for pk in 1..=5u64 { let (c, r) = k.allow(pk, 0, 101, 5, 0); tr.sit(out, "ck.allow", "ck.s.allow_five_keys_of_topic", &c, r, qs(&k)); }
+        let (c, r) = k.remove(3, 0, 101, 5); tr.sit(out, "ck.remove", "ck.s.remove_middle_key_of_topic", &c, r, qs(&k));
+        let (c, r) = k.remove(4, 0, 101, 5); tr.sit(out, "ck.remove", "ck.s.remove_second_to_last_key_of_topic", &c, r, qs(&k));
+        let (c, r) = k.remove(1, 0, 101, 5); tr.sit(out, "ck.remove", "ck.s.remove_first_key_of_topic", &c, r, qs(&k));
+        let (c, r) = k.remove(5, 0, 101, 5); tr.sit(out, "ck.remove", "ck.s.remove_last_key_of_topic", &c, r, qs(&k));
+        let (c, r) = k.allow(3, 1, 101, 5, 0); tr.sit(out, "ck.allow", "ck.s.readd_after_removal", &c, r, qs(&k));
+        let n = tr.len(); out.trace("keys/classes-removal-orders", format!("{} {}", ck_header(), list(&tr.ev)), n);
+    }
+}
+
 fn run_keys(out: &mut Out, rng: &mut Rng) {
     let maxk = cil::MAX_KEYS_PER_TOPIC as u64;
     let maxr = cil::MAX_REGISTRIES_PER_KEY as u64;
@@ -1236,8 +1594,9 @@ fn run_keys(out: &mut Out, rng: &mut Rng) {
     let scale = out.cfg.scale as usize;
     let donly = directed_only();
     directed_keys(out);
+    classes_keys(out);
     // A. small universes
-    let na = if donly { 0 } else if thorough { 400 } else { 45 } * scale;
+    let na = if donly { 0 } else if thorough { 400 } else { 42 } * scale;
     for _ in 0..na {
         let npk = 1 + rng.below(3); let nt = 1 + rng.below(3); let nr = 1 + rng.below(3) as usize;
         let schemes = [101u64, 102];
@@ -1491,6 +1850,50 @@ fn directed_irs(out: &mut Out) {
     }
 }
 
+/// CLASS histories of the identity registry storage: the registry's own address / another registered contract as account,
+/// identity and recovery target (K1); country codes 0 and u32::MAX, repeated entries, empty metadata strings, index
+/// u32::MAX (K2); old == new (K5); deleting the middle / second-to-last / first / last of five country entries (K6)
+fn classes_irs(out: &mut Out) {
+    let e = new_env();
+    let id = e.register(IrsC, ());
+    let c = IrsCClient::new(&e, &id);
+    let mut a: std::vec::Vec<Address> = (0..5).map(|_| Address::generate(&e)).collect();
+    a.push(id.clone()); a.push(e.register(RegistryMock, ()));
+    let t = Ir { e, c, u: Uni::of(a) }; let mut tr = Tr::new();
+    let (own, other) = (5usize, 6usize); let mx = u32::MAX as u64;
+    let accts = [0usize, 1, 2, 3, own, other];
+    let qs = |t: &Ir| t.queries(&accts);
+    let cl = |t: &Ir, ds: &[Cd]| list(&ds.iter().map(|d| cd_coq_desc(&t.e, d)).collect::<std::vec::Vec<_>>());
+    let add = |t: &Ir, a: usize, id: usize, org: bool, ds: &[Cd]| (format!("IrAdd {} {} {} {}", a, id, if org { 1 } else { 0 }, cl(t, ds)), unit_ok(t.c.try_add_identity(&t.u.a[a], &t.u.a[id], &org, &t.cds(ds))));
+    let modi = |t: &Ir, a: usize, id: usize| (format!("IrModify {} {}", a, id), unit_ok(t.c.try_modify_identity(&t.u.a[a], &t.u.a[id])));
+    let rec = |t: &Ir, a: usize, nw: usize| (format!("IrRecover {} {}", a, nw), unit_ok(t.c.try_recover_identity(&t.u.a[a], &t.u.a[nw])));
+    let modc = |t: &Ir, a: usize, i: u64, d: &Cd| (format!("IrModifyCountry {} {} {}", a, i, cd_coq_desc(&t.e, d)), unit_ok(t.c.try_modify_country(&t.u.a[a], &(i as u32), &cd_make(&t.e, d))));
+    let delc = |t: &Ir, a: usize, i: u64| (format!("IrDeleteCountry {} {}", a, i), unit_ok(t.c.try_delete_country(&t.u.a[a], &(i as u32))));
+    let (c, r) = add(&t, own, 4, false, &[(1, None)]); tr.sit(out, "irs.add", "irs.s.add_own_address_as_account", &c, r, qs(&t));
+    let (c, r) = add(&t, 0, own, true, &[(5 * TAG + 1, None)]); tr.sit(out, "irs.add", "irs.s.add_own_address_as_identity", &c, r, qs(&t));
+    let (c, r) = modi(&t, 0, own); tr.sit(out, "irs.modify", "irs.s.modify_same_identity", &c, r, qs(&t));
+    let (c, r) = modi(&t, own, own); tr.sit(out, "irs.modify", "irs.s.modify_own_address_to_itself", &c, r, qs(&t));
+    let (c, r) = rec(&t, 0, other); tr.sit(out, "irs.recover", "irs.s.recover_into_registered_contract", &c, r, qs(&t));
+    let (c, r) = rec(&t, own, own); tr.sit(out, "irs.recover", "irs.s.recover_own_address_into_itself", &c, r, qs(&t));
+    let (c, r) = rec(&t, own, 2); tr.sit(out, "irs.recover", "irs.s.recover_own_address", &c, r, qs(&t));
+    let (c, r) = add(&t, own, 4, false, &[(1, None)]); tr.sit(out, "irs.add", "irs.s.add_on_recovered_own_address", &c, r, qs(&t));
+    let (c, r) = rec(&t, 2, own); tr.sit(out, "irs.recover", "irs.s.recover_into_recovered_own_address", &c, r, qs(&t));
+    advance(&t.e, 4_000_000); tr.advance(out, "irs", 4_000_000, "tt", qs(&t));
+    let five: [Cd; 5] = [(0, None), (mx, None), (0, None), (3 * TAG + mx, Some((2, 0))), (TAG, None)];
+    let (c, r) = add(&t, 3, 3, false, &five); tr.sit(out, "irs.add", "irs.s.add_codes_zero_max_and_repeated_entries", &c, r, qs(&t));
+    let (c, r) = modc(&t, 3, 0, &(0, Some((2, 0)))); tr.sit(out, "irs.modify_country", "irs.s.metadata_empty_strings", &c, r, qs(&t));
+    let (c, r) = modc(&t, 3, 0, &(0, Some((2, 0)))); tr.sit(out, "irs.modify_country", "irs.s.modify_country_identical", &c, r, qs(&t));
+    let (c, r) = delc(&t, 3, mx); tr.sit(out, "irs.delete_country", "irs.s.delete_country_index_u32_max", &c, r, qs(&t));
+    let (c, r) = modc(&t, 3, mx, &(1, None)); tr.sit(out, "irs.modify_country", "irs.s.modify_country_index_u32_max", &c, r, qs(&t));
+    let (c, r) = delc(&t, 3, 2); tr.sit(out, "irs.delete_country", "irs.s.delete_middle_country_of_five", &c, r, qs(&t));
+    let (c, r) = delc(&t, 3, 2); tr.sit(out, "irs.delete_country", "irs.s.delete_second_to_last_country", &c, r, qs(&t));
+    let (c, r) = delc(&t, 3, 0); tr.sit(out, "irs.delete_country", "irs.s.delete_first_country", &c, r, qs(&t));
+    let (c, r) = delc(&t, 3, 1); tr.sit(out, "irs.delete_country", "irs.s.delete_last_country", &c, r, qs(&t));
+    let (c, r) = delc(&t, 3, 0); tr.sit(out, "irs.delete_country", "irs.s.delete_only_country", &c, r, qs(&t));
+    advance(&t.e, 100); tr.advance(out, "irs", 100, "tt", qs(&t));
+    let n = tr.len(); out.trace("irs/classes", format!("{} {}", irs_header(), list(&tr.ev)), n);
+}
+
 fn run_irs(out: &mut Out, rng: &mut Rng) {
     let maxc = irl::MAX_COUNTRY_ENTRIES as u64;
     let maxm = irl::MAX_METADATA_ENTRIES as u64;
@@ -1498,7 +1901,8 @@ fn run_irs(out: &mut Out, rng: &mut Rng) {
     let thorough = out.cfg.thorough;
     let scale = out.cfg.scale as usize;
     directed_irs(out);
-    let na = if directed_only() { 0 } else if thorough { 500 } else { 50 } * scale;
+    classes_irs(out);
+    let na = if directed_only() { 0 } else if thorough { 500 } else { 47 } * scale;
     for it in 0..na {
         let nacct = 2 + rng.below(4) as usize;       // accounts 0..nacct ; identities are the last two addresses
         let t = Ir::new(nacct + 2);
@@ -1604,6 +2008,47 @@ fn directed_compliance(out: &mut Out) {
     let n = tr.len(); out.trace("compliance/directed", format!("TrCM {} {}", cmm::MAX_MODULES, list(&tr.ev)), n);
 }
 
+/// CLASS histories of the compliance modules: the compliance contract's own address and another registered contract as
+/// modules (K1), one module on every hook and removed from one (K5), five modules of one hook removed middle /
+/// second-to-last / first / last and in the opposite order on another hook (K6)
+fn classes_compliance(out: &mut Out) {
+    let e = new_env();
+    let id = e.register(CmC, ());
+    let c = CmCClient::new(&e, &id);
+    let mut a: std::vec::Vec<Address> = (0..3).map(|_| Address::generate(&e)).collect();
+    a.push(id.clone()); a.push(e.register(RegistryMock, ()));
+    let t = Cm { e, c, u: Uni::of(a) }; let mut tr = Tr::new();
+    let (own, other) = (3usize, 4usize);
+    let hooks = [0u64, 1, 2, 3, 4]; let mods = [0usize, 1, 2, own, other];
+    let qs = |t: &Cm| t.queries(&hooks, &mods);
+    let cur = |t: &Cm, h: u64| -> std::vec::Vec<u64> { tryv!(t.c.try_modules(&hook_of(h))).map(|v| t.u.ids(&v)).unwrap_or_default() };
+    let add = |t: &Cm, h: u64, m: usize| (format!("CmAdd {} {}", h, m), unit_ok(t.c.try_add_module(&hook_of(h), &t.u.a[m])));
+    let rem = |t: &Cm, h: u64, m: usize| (format!("CmRemove {} {}", h, m), unit_ok(t.c.try_remove_module(&hook_of(h), &t.u.a[m])));
+    let back = |l: std::vec::Vec<u64>, k: usize| -> usize { if l.len() > k { l[l.len() - 1 - k] as usize } else { 0 } };
+    let (c, r) = add(&t, 3, 0); tr.sit(out, "cm.add", "cm.s.add", &c, r, qs(&t));
+    let (c, r) = add(&t, 3, 1); tr.sit(out, "cm.add", "cm.s.add", &c, r, qs(&t));
+    let (c, r) = add(&t, 3, own); tr.sit(out, "cm.add", "cm.s.add_own_address", &c, r, qs(&t));
+    let (c, r) = add(&t, 3, other); tr.sit(out, "cm.add", "cm.s.add_registered_contract", &c, r, qs(&t));
+    let (c, r) = add(&t, 3, 2); tr.sit(out, "cm.add", "cm.s.add", &c, r, qs(&t));
+    let (c, r) = add(&t, 3, own); tr.sit(out, "cm.add", "cm.s.add_own_address_duplicate", &c, r, qs(&t));
+    for h in [0u64, 1, 2, 4] { let (c, r) = add(&t, h, own); tr.sit(out, "cm.add", "cm.s.add_own_address_on_every_hook", &c, r, qs(&t)); }
+    advance(&t.e, 4_000_000); tr.advance(out, "cm", 4_000_000, "tt", qs(&t));
+    let m = cur(&t, 3).get(2).cloned().unwrap_or(0) as usize; let (c, r) = rem(&t, 3, m); tr.sit(out, "cm.remove", "cm.s.remove_middle_of_five_keeps_other_hooks", &c, r, qs(&t));
+    let m = back(cur(&t, 3), 1); let (c, r) = rem(&t, 3, m); tr.sit(out, "cm.remove", "cm.s.remove_second_to_last", &c, r, qs(&t));
+    let m = cur(&t, 3).first().cloned().unwrap_or(0) as usize; let (c, r) = rem(&t, 3, m); tr.sit(out, "cm.remove", "cm.s.remove_first", &c, r, qs(&t));
+    let m = back(cur(&t, 3), 0); let (c, r) = rem(&t, 3, m); tr.sit(out, "cm.remove", "cm.s.remove_last", &c, r, qs(&t));
+    let (c, r) = add(&t, 3, own); tr.sit(out, "cm.add", "cm.s.readd_own_address", &c, r, qs(&t));
+    // the opposite order on hook 1 (which already holds the own address)
+    for m in [0usize, 1, 2, other] { let (c, r) = add(&t, 1, m); tr.sit(out, "cm.add", "cm.s.add", &c, r, qs(&t)); }
+    let m = back(cur(&t, 1), 0); let (c, r) = rem(&t, 1, m); tr.sit(out, "cm.remove", "cm.s.remove_last", &c, r, qs(&t));
+    let m = back(cur(&t, 1), 1); let (c, r) = rem(&t, 1, m); tr.sit(out, "cm.remove", "cm.s.remove_second_to_last", &c, r, qs(&t));
+    let m = cur(&t, 1).get(1).cloned().unwrap_or(0) as usize; let (c, r) = rem(&t, 1, m); tr.sit(out, "cm.remove", "cm.s.remove_middle_of_three", &c, r, qs(&t));
+    let (c, r) = rem(&t, 1, own); tr.sit(out, "cm.remove", "cm.s.remove_own_address", &c, r, qs(&t));
+    let (c, r) = rem(&t, 1, own); tr.sit(out, "cm.remove", "cm.s.remove_own_address_absent", &c, r, qs(&t));
+    advance(&t.e, 20); tr.advance(out, "cm", 20, "tt", qs(&t));
+    let n = tr.len(); out.trace("compliance/classes", format!("TrCM {} {}", cmm::MAX_MODULES, list(&tr.ev)), n);
+}
+
 fn run_compliance(out: &mut Out, rng: &mut Rng) {
     let maxm = cmm::MAX_MODULES as usize;
     let thorough = out.cfg.thorough;
@@ -1611,7 +2056,8 @@ fn run_compliance(out: &mut Out, rng: &mut Rng) {
     let header = format!("TrCM {}", cmm::MAX_MODULES);
     let donly = directed_only();
     directed_compliance(out);
-    let na = if donly { 0 } else if thorough { 300 } else { 30 } * scale;
+    classes_compliance(out);
+    let na = if donly { 0 } else if thorough { 300 } else { 28 } * scale;
     for _ in 0..na {
         let nm = 2 + rng.below(4) as usize;
         let t = Cm::new(nm);
@@ -1746,11 +2192,83 @@ fn directed_claims(out: &mut Out) {
     let n = tr.len(); out.trace("claims/directed", format!("TrIC {}", list(&tr.ev)), n);
 }
 
+// ---- CLASS histories of the identity-claims index ----
+impl<'a> Ic<'a> {
+    /// issuers: 5 IssuerMocks, then (K1 / K4) the identity contract's OWN address, an address where NO contract lives,
+    /// a contract whose is_claim_valid ANSWERS `true` instead of returning nothing, a contract WITHOUT that function
+    fn new_special(topics: &[u64]) -> Ic<'a> {
+        let e = new_env();
+        let id = e.register(ClaimsC, ());
+        let c = ClaimsCClient::new(&e, &id);
+        let mut issuers: std::vec::Vec<Address> = (0..5).map(|_| e.register(IssuerMock, ())).collect();
+        issuers.push(id.clone()); issuers.push(Address::generate(&e)); issuers.push(e.register(OddIssuerMock, ())); issuers.push(e.register(RegistryMock, ()));
+        let u = Uni::of(issuers);
+        let mut ids = std::collections::HashMap::new();
+        for i in 0..u.a.len() { for &t in topics {
+            let h = icl::generate_claim_id(&e, &u.a[i], t as u32).to_array();
+            if ids.insert(h, (i as u64, t)).is_some() { panic!("claim id collision inside the universe"); }
+        } }
+        Ic { e, c, u, ids, nt: 0 }
+    }
+    fn queries_t(&self, topics: &[u64]) -> std::vec::Vec<String> {
+        let mut q = vec![];
+        for i in 0..self.u.a.len() { for &t in topics {
+            let r = match self.c.try_get_claim(&self.cid(i, t)) { Ok(Ok(c)) => okv(&self.claim_coq(&c)), _ => "Fail".into() };
+            q.push(format!("(JqClaim ({}, {}), JaClaim {})", i, t, r));
+        } }
+        for &t in topics {
+            q.push(match tryv!(self.c.try_ids_by_topic(&(t as u32))) {
+                Some(ids) => { let v: std::vec::Vec<String> = ids.iter().map(|x| self.cid_coq(&x)).collect(); format!("(JqByTopic {}, JaIds {})", t, list(&v)) }
+                None => format!("(JqByTopic {}, JaTrap)", t) });
+        }
+        q
+    }
+    /// `valid`: what the issuer answers (the model's input)
+    fn add_raw(&self, i: usize, tp: u64, scheme: u64, sig: u64, data: u64, uri: &str, valid: bool) -> (String, Option<String>) {
+        let r = match self.c.try_add_claim(&(tp as u32), &(scheme as u32), &self.u.a[i], &self.bytes(sig), &self.bytes(data), &SString::from_str(&self.e, uri)) {
+            Ok(Ok(id)) => Some(format!("(Some {})", self.cid_coq(&id))), _ => None };
+        (format!("IcAdd (Build_claim {} {} {} {} {} {}) {}", tp, scheme, i, sig, data, num_or_odd(uri.as_bytes()), b(valid)), r)
+    }
+}
+fn classes_claims(out: &mut Out) {
+    let mx = u32::MAX as u64;
+    let topics = [0u64, 1, mx];
+    let t = Ic::new_special(&topics); let mut tr = Tr::new();
+    let (own, nocontract, odd_t, nofn) = (5usize, 6usize, 7usize, 8usize);
+    let qs = |t: &Ic| t.queries_t(&topics);
+    let rem = |t: &Ic, i: usize, tp: u64| (format!("IcRemove ({}, {})", i, tp), match t.c.try_remove_claim(&t.cid(i, tp)) { Ok(Ok(())) => Some("None".to_string()), _ => None });
+    let by_topic = |t: &Ic, tp: u64| -> std::vec::Vec<(u64, u64)> { tryv!(t.c.try_ids_by_topic(&(tp as u32))).map(|v| v.iter().map(|x| t.ids.get(&x.to_array()).cloned().unwrap_or((0, tp))).collect()).unwrap_or_default() };
+    // K1 / K4: the issuer is the identity contract itself / no contract / answers a value / lacks the function
+    let (c, r) = t.add_raw(own, 1, 101, 1, 1, "1", false); tr.sit(out, "ic.add", "ic.s.add_issuer_is_own_address", &c, r, qs(&t));
+    let (c, r) = t.add_raw(nocontract, 1, 101, 1, 1, "1", false); tr.sit(out, "ic.add", "ic.s.add_issuer_not_a_contract", &c, r, qs(&t));
+    let (c, r) = t.add_raw(odd_t, 1, 101, 1, 1, "1", false); tr.sit(out, "ic.add", "ic.s.add_issuer_answers_a_value", &c, r, qs(&t));
+    let (c, r) = t.add_raw(nofn, 1, 101, 1, 1, "1", false); tr.sit(out, "ic.add", "ic.s.add_issuer_without_the_function", &c, r, qs(&t));
+    // K2: topic / scheme 0 and u32::MAX, empty and non-numeric uri, empty data; K5: an update with identical content
+    let (c, r) = t.add_raw(0, 0, 0, 1, 0, "", true); tr.sit(out, "ic.add", "ic.s.add_topic_zero_scheme_zero_empty_uri", &c, r, qs(&t));
+    let (c, r) = t.add_raw(0, mx, mx, 2, 3, "https://x.y/z", true); tr.sit(out, "ic.add", "ic.s.add_topic_u32_max_scheme_u32_max", &c, r, qs(&t));
+    let (c, r) = t.add_raw(0, mx, mx, 2, 3, "https://x.y/z", true); tr.sit(out, "ic.add", "ic.s.update_identical", &c, r, qs(&t));
+    let (c, r) = t.add_raw(0, 0, 5, 0, 0, "7", false); tr.sit(out, "ic.add", "ic.s.update_rejected_by_issuer", &c, r, qs(&t));
+    advance(&t.e, 4_000_000); tr.advance(out, "ic", 4_000_000, "None", qs(&t));
+    // K6: five claims of topic 1 (issuers 0..4): middle / second-to-last / first / last removed, re-added
+    for i in 0..5usize { let (c, r) = t.add_raw(i, 1, 101, 1 + i as u64, i as u64, &format!("{}", 10 + i), true); tr.sit(out, "ic.add", "ic.s.add", &c, r, qs(&t)); }
+    let l = by_topic(&t, 1); let (i, tp) = l.get(2).cloned().unwrap_or((2, 1)); let (c, r) = rem(&t, i as usize, tp); tr.sit(out, "ic.remove", "ic.s.remove_middle_of_five", &c, r, qs(&t));
+    let l = by_topic(&t, 1); let (i, tp) = if l.len() >= 2 { l[l.len() - 2] } else { (3, 1) }; let (c, r) = rem(&t, i as usize, tp); tr.sit(out, "ic.remove", "ic.s.remove_second_to_last_of_topic", &c, r, qs(&t));
+    let l = by_topic(&t, 1); let (i, tp) = l.first().cloned().unwrap_or((0, 1)); let (c, r) = rem(&t, i as usize, tp); tr.sit(out, "ic.remove", "ic.s.remove_first_of_topic", &c, r, qs(&t));
+    let l = by_topic(&t, 1); let (i, tp) = l.last().cloned().unwrap_or((4, 1)); let (c, r) = rem(&t, i as usize, tp); tr.sit(out, "ic.remove", "ic.s.remove_last_of_topic", &c, r, qs(&t));
+    let (c, r) = t.add_raw(2, 1, 102, 9, 9, "9", true); tr.sit(out, "ic.add", "ic.s.readd_after_removal", &c, r, qs(&t));
+    let (c, r) = rem(&t, 0, 0); tr.sit(out, "ic.remove", "ic.s.remove_topic_zero", &c, r, qs(&t));
+    let (c, r) = rem(&t, 0, mx); tr.sit(out, "ic.remove", "ic.s.remove_topic_u32_max", &c, r, qs(&t));
+    let (c, r) = rem(&t, own, 1); tr.sit(out, "ic.remove", "ic.s.remove_own_address_claim_absent", &c, r, qs(&t));
+    advance(&t.e, 20); tr.advance(out, "ic", 20, "None", qs(&t));
+    let n = tr.len(); out.trace("claims/classes", format!("TrIC {}", list(&tr.ev)), n);
+}
+
 fn run_claims(out: &mut Out, rng: &mut Rng) {
     let thorough = out.cfg.thorough;
     let scale = out.cfg.scale as usize;
     directed_claims(out);
-    let na = if directed_only() { 0 } else if thorough { 300 } else { 35 } * scale;
+    classes_claims(out);
+    let na = if directed_only() { 0 } else if thorough { 300 } else { 33 } * scale;
     for _ in 0..na {
         let ni = 1 + rng.below(3) as usize; let nt = 1 + rng.below(3);
         let t = Ic::new(ni, nt);
@@ -1806,13 +2324,17 @@ impl<'a> Sa<'a> {
         Sa { e, c, u, pol, grumpy }
     }
     fn signer(&self, s: &Sg) -> Signer {
-        if s.0 == 0 { Signer::Delegated(self.u.a[s.1].clone()) } else { Signer::External(self.u.a[s.1].clone(), Bytes::from_array(&self.e, &s.2.to_be_bytes())) }
+        if s.0 == 0 { Signer::Delegated(self.u.a[s.1].clone()) }
+        else if s.0 == 2 { Signer::External(self.u.a[s.1].clone(), Bytes::new(&self.e)) } // (kind 2: external signer with an EMPTY key)
+        else { Signer::External(self.u.a[s.1].clone(), Bytes::from_array(&self.e, &s.2.to_be_bytes())) }
     }
     fn signer_coq(&self, s: &Signer) -> String {
         match s { Signer::Delegated(a) => format!("(Delegated {})", self.u.id(a)), Signer::External(a, k) => format!("(External {} {})", self.u.id(a), pk_id(k)) }
     }
     fn ctx(&self, c: &Cx) -> ContextRuleType {
-        match c.0 { 0 => ContextRuleType::Default, 1 => ContextRuleType::CallContract(self.u.a[c.1 as usize].clone()), _ => ContextRuleType::CreateContract(bn32(&self.e, c.1)) }
+        match c.0 { 0 => ContextRuleType::Default, 1 => ContextRuleType::CallContract(self.u.a[c.1 as usize].clone()),
+                    3 => ContextRuleType::CreateContract(BytesN::from_array(&self.e, &[0xffu8; 32])), // (kind 3: the all-ones hash)
+                    _ => ContextRuleType::CreateContract(bn32(&self.e, c.1)) }
     }
     fn ctx_coq(&self, c: &ContextRuleType) -> String {
         match c { ContextRuleType::Default => "CDefault".into(), ContextRuleType::CallContract(a) => format!("(CCall {})", self.u.id(a)), ContextRuleType::CreateContract(h) => format!("(CCreate {})", bn32_id(h)) }
@@ -1836,20 +2358,24 @@ impl<'a> Sa<'a> {
         }
         q
     }
-    fn sg_coq(&self, s: &Sg) -> String { if s.0 == 0 { format!("(Delegated {})", s.1) } else { format!("(External {} {})", s.1, s.2) } }
-    fn cx_coq(&self, c: &Cx) -> String { match c.0 { 0 => "CDefault".into(), 1 => format!("(CCall {})", c.1), _ => format!("(CCreate {})", c.1) } }
+    fn sg_coq(&self, s: &Sg) -> String { if s.0 == 0 { format!("(Delegated {})", s.1) } else if s.0 == 2 { format!("(External {} 0)", s.1) } else { format!("(External {} {})", s.1, s.2) } }
+    fn cx_coq(&self, c: &Cx) -> String { match c.0 { 0 => "CDefault".into(), 1 => format!("(CCall {})", c.1), 3 => self.ctx_coq(&self.ctx(c)), _ => format!("(CCreate {})", c.1) } }
     /// policies: (policy index, install succeeds); returns (call, outcome)
     fn add_rule(&self, cx: &Cx, name: u64, until: Option<u32>, sgs: &[Sg], pols: &[(usize, bool)]) -> (String, Option<String>) {
+        self.add_rule_s(cx, &format!("{}", name), until, sgs, pols)
+    }
+    /// (any string as the rule name: decimal numerals print as the number, everything else through `odd`)
+    fn add_rule_s(&self, cx: &Cx, name: &str, until: Option<u32>, sgs: &[Sg], pols: &[(usize, bool)]) -> (String, Option<String>) {
         let mut sv: Vec<Signer> = Vec::new(&self.e);
         for s in sgs { sv.push_back(self.signer(s)); }
         let mut pm: Map<Address, Val> = Map::new(&self.e);
         for (p, ok) in pols { pm.set(self.pol.a[*p].clone(), (if *ok { 0u32 } else { 1u32 }).into_val(&self.e)); }
-        let r = match self.c.try_add_rule(&self.ctx(cx), &self.name(name), &until, &sv, &pm) { Ok(Ok(r)) => Some(format!("(Some {})", self.rule_coq(&r))), _ => None };
+        let r = match self.c.try_add_rule(&self.ctx(cx), &SString::from_str(&self.e, name), &until, &sv, &pm) { Ok(Ok(r)) => Some(format!("(Some {})", self.rule_coq(&r))), _ => None };
         // the Map argument: ascending policy index, last value wins for a repeated key
         let mut keys: std::collections::BTreeMap<usize, bool> = Default::default();
         for (p, ok) in pols { keys.insert(*p, *ok); }
         let ptxt: std::vec::Vec<String> = keys.iter().map(|(p, ok)| format!("({}, {})", p, b(*ok))).collect();
-        let call = format!("SaAddRule {} {} {} {} {}", self.cx_coq(cx), name, match until { Some(v) => format!("(Some {})", v), None => "None".into() },
+        let call = format!("SaAddRule {} {} {} {} {}", self.cx_coq(cx), num_or_odd(name.as_bytes()), match until { Some(v) => format!("(Some {})", v), None => "None".into() },
                            list(&sgs.iter().map(|s| self.sg_coq(s)).collect::<std::vec::Vec<_>>()), list(&ptxt));
         (call, r)
     }
@@ -1998,6 +2524,159 @@ fn directed_sa(out: &mut Out, header: &str) {
     }
 }
 
+// ---- CLASS histories of the smart-account context rules ----
+/// policy kinds of `sa_special`: 0 plain mock, 1 uninstall traps, 2 the smart account's OWN address, 3 NO contract lives there,
+/// 4 install ANSWERS a number
+fn sa_special<'a>(naddr: usize) -> (Sa<'a>, std::vec::Vec<u8>) {
+    let e = new_env();
+    let id = e.register(SaC, ());
+    let c = SaCClient::new(&e, &id);
+    let raw: std::vec::Vec<(Address, u8)> = vec![(e.register(PolicyMock, ()), 0), (e.register(PolicyMock, ()), 0), (e.register(GrumpyPolicyMock, ()), 1), (e.register(PolicyMock, ()), 0),
+                                                  (id.clone(), 2), (Address::generate(&e), 3), (e.register(OddPolicyMock, ()), 4)];
+    let mut m: Map<Address, ()> = Map::new(&e);
+    for (a, _) in raw.iter() { m.set(a.clone(), ()); }
+    let sorted: std::vec::Vec<Address> = m.keys().iter().collect();
+    let kind: std::vec::Vec<u8> = sorted.iter().map(|a| raw.iter().find(|x| x.0 == *a).map(|x| x.1).unwrap_or(0)).collect();
+    let grumpy: std::vec::Vec<bool> = kind.iter().map(|k| *k == 1).collect();
+    // addresses: naddr plain ones, then the smart account's OWN address (index naddr), then the address of a plain policy (naddr + 1)
+    let mut a: std::vec::Vec<Address> = (0..naddr).map(|_| Address::generate(&e)).collect();
+    a.push(id.clone());
+    a.push(sorted[kind.iter().position(|k| *k == 0).unwrap_or(0)].clone());
+    (Sa { e, c, u: Uni::of(a), pol: Uni::of(sorted), grumpy }, kind)
+}
+fn classes_sa(out: &mut Out, header: &str) {
+    let unit = |x: Option<()>| -> Option<String> { x.map(|_| "None".to_string()) };
+    let d = |i: usize| -> Sg { (0, i, 0) };
+    let add_s = |t: &Sa, id: u32, s: &Sg| (format!("SaAddSigner {} {}", id, t.sg_coq(s)), unit(tryv!(t.c.try_add_signer(&id, &t.signer(s)))));
+    let rem_s = |t: &Sa, id: u32, s: &Sg| (format!("SaRemoveSigner {} {}", id, t.sg_coq(s)), unit(tryv!(t.c.try_remove_signer(&id, &t.signer(s)))));
+    let add_p = |t: &Sa, id: u32, p: usize, ok: bool| (format!("SaAddPolicy {} {} {}", id, p, b(ok)), unit(tryv!(t.c.try_add_policy(&id, &t.pol.a[p], &(if ok { 0u32 } else { 1u32 }).into_val(&t.e)))));
+    let rem_p = |t: &Sa, id: u32, p: usize| (format!("SaRemovePolicy {} {}", id, p), unit(tryv!(t.c.try_remove_policy(&id, &t.pol.a[p]))));
+    let rem_r = |t: &Sa, id: u32| (format!("SaRemoveRule {}", id), unit(tryv!(t.c.try_remove_rule(&id))));
+    let upd_n = |t: &Sa, id: u32, nm: &str| (format!("SaUpdateName {} {}", id, num_or_odd(nm.as_bytes())), tryv!(t.c.try_update_name(&id, &SString::from_str(&t.e, nm))).map(|x| format!("(Some {})", t.rule_coq(&x))));
+    let upd_u = |t: &Sa, id: u32, u: Option<u32>| (format!("SaUpdateUntil {} {}", id, match u { Some(v) => format!("(Some {})", v), None => "None".into() }),
+                                                   tryv!(t.c.try_update_until(&id, &u)).map(|x| format!("(Some {})", t.rule_coq(&x))));
+    let with_extra = |t: &Sa, mut q: std::vec::Vec<String>| -> std::vec::Vec<String> {
+        let r = match t.c.try_rule(&u32::MAX) { Ok(Ok(r)) => okv(&t.rule_coq(&r)), _ => "Fail".into() };
+        q.push(format!("(SqRule {}, SaRule {})", u32::MAX, r)); q };
+    // 1. special parties (K1), collaborators (K4), unusual values (K2), aliasing (K5)
+    {
+        let (t, kind) = sa_special(3); let mut tr = Tr::new();
+        let (own, pa_addr) = (3usize, 4usize);
+        let pk = |k: u8| kind.iter().position(|x| *x == k).unwrap_or(0);
+        let (pa, p_own, p_none, p_odd) = (pk(0), pk(2), pk(3), pk(4));
+        let ctxs: std::vec::Vec<Cx> = vec![(0, 0), (1, own as u64), (1, 1), (1, pa_addr as u64), (2, 0), (3, 0)];
+        let qs = |t: &Sa| with_extra(t, t.queries(13, &ctxs));
+        let (c, r) = t.add_rule_s(&(0, 0), "", None, &[d(own)], &[]); tr.sit(out, "sa.add_rule", "sa.s.add_rule_signer_is_own_address_empty_name", &c, r, qs(&t));                  // id 0
+        let (c, r) = t.add_rule_s(&(1, own as u64), "multisig", None, &[d(0)], &[]); tr.sit(out, "sa.add_rule", "sa.s.add_rule_context_is_own_address_text_name", &c, r, qs(&t));    // id 1
+        let (c, r) = t.add_rule(&(0, 0), 1, None, &[(1, own, 1)], &[]); tr.sit(out, "sa.add_rule", "sa.s.add_rule_verifier_is_own_address", &c, r, qs(&t));                          // id 2
+        let (c, r) = t.add_rule(&(0, 0), 1, None, &[d(1)], &[(p_own, false)]); tr.sit(out, "sa.add_rule", "sa.s.add_rule_policy_is_own_address", &c, r, qs(&t));
+        let (c, r) = t.add_rule(&(0, 0), 1, None, &[d(1)], &[(p_none, false)]); tr.sit(out, "sa.add_rule", "sa.s.add_rule_policy_not_a_contract", &c, r, qs(&t));
+        let (c, r) = t.add_rule(&(0, 0), 1, None, &[d(1)], &[(pa, true), (p_odd, false)]); tr.sit(out, "sa.add_rule", "sa.s.add_rule_policy_install_answers_a_value", &c, r, qs(&t));
+        let (c, r) = add_p(&t, 0, p_own, false); tr.sit(out, "sa.add_policy", "sa.s.add_policy_is_own_address", &c, r, qs(&t));
+        let (c, r) = add_p(&t, 0, p_none, false); tr.sit(out, "sa.add_policy", "sa.s.add_policy_not_a_contract", &c, r, qs(&t));
+        let (c, r) = add_p(&t, 0, p_odd, false); tr.sit(out, "sa.add_policy", "sa.s.add_policy_install_answers_a_value", &c, r, qs(&t));
+        let (c, r) = t.add_rule(&(1, pa_addr as u64), 2, None, &[], &[(pa, false)]); tr.sit(out, "sa.add_rule", "sa.s.add_rule_context_contract_is_its_failing_policy", &c, r, qs(&t));
+        let (c, r) = t.add_rule(&(1, pa_addr as u64), 2, None, &[], &[(pa, true)]); tr.sit(out, "sa.add_rule", "sa.s.add_rule_context_contract_is_its_policy", &c, r, qs(&t));        // id 3
+        let (c, r) = t.add_rule(&(1, 1), 2, None, &[d(1), (1, 1, 5)], &[]); tr.sit(out, "sa.add_rule", "sa.s.add_rule_context_contract_is_signer_delegated_and_external", &c, r, qs(&t)); // id 4
+        advance(&t.e, 100); tr.advance(out, "sa", 100, "None", qs(&t));                                                                                                        // ledger 200
+        let (c, r) = t.add_rule(&(0, 0), 3, Some(0), &[d(2)], &[]); tr.sit(out, "sa.add_rule", "sa.s.add_rule_valid_until_zero", &c, r, qs(&t));
+        let (c, r) = t.add_rule(&(0, 0), 3, Some(u32::MAX), &[d(2)], &[]); tr.sit(out, "sa.add_rule", "sa.s.add_rule_valid_until_u32_max", &c, r, qs(&t));                          // id 5
+        let (c, r) = t.add_rule(&(0, 0), 3, None, &[(2, 1, 0)], &[]); tr.sit(out, "sa.add_rule", "sa.s.add_rule_external_signer_empty_key", &c, r, qs(&t));                        // id 6
+        let (c, r) = t.add_rule(&(2, 0), 3, None, &[d(0)], &[]); tr.sit(out, "sa.add_rule", "sa.s.add_rule_create_hash_all_zero", &c, r, qs(&t));                                 // id 7
+        let (c, r) = t.add_rule(&(3, 0), 3, None, &[d(0)], &[]); tr.sit(out, "sa.add_rule", "sa.s.add_rule_create_hash_all_ones", &c, r, qs(&t));                                 // id 8
+        let (c, r) = upd_n(&t, 1, "multisig"); tr.sit(out, "sa.update_name", "sa.s.update_name_same", &c, r, qs(&t));
+        let (c, r) = upd_n(&t, 1, ""); tr.sit(out, "sa.update_name", "sa.s.update_name_empty", &c, r, qs(&t));
+        let (c, r) = upd_n(&t, u32::MAX, "1"); tr.sit(out, "sa.update_name", "sa.s.update_name_id_u32_max", &c, r, qs(&t));
+        let (c, r) = upd_u(&t, 5, Some(u32::MAX)); tr.sit(out, "sa.update_until", "sa.s.update_until_same_u32_max", &c, r, qs(&t));
+        let (c, r) = upd_u(&t, 5, Some(0)); tr.sit(out, "sa.update_until", "sa.s.update_until_zero", &c, r, qs(&t));
+        let (c, r) = upd_u(&t, 0, Some(200)); tr.sit(out, "sa.update_until", "sa.s.update_until_now", &c, r, qs(&t));
+        let (c, r) = rem_r(&t, u32::MAX); tr.sit(out, "sa.remove_rule", "sa.s.remove_rule_id_u32_max", &c, r, qs(&t));
+        let (c, r) = rem_s(&t, 0, &d(own)); tr.sit(out, "sa.remove_signer", "sa.s.remove_only_signer_own_address", &c, r, qs(&t));
+        let (c, r) = add_s(&t, 0, &(1, own, 1)); tr.sit(out, "sa.add_signer", "sa.s.add_signer_same_address_other_kind", &c, r, qs(&t));
+        let (c, r) = rem_r(&t, 0); tr.sit(out, "sa.remove_rule", "sa.s.remove_rule_of_own_address", &c, r, qs(&t));
+        advance(&t.e, 4_000_000); tr.advance(out, "sa", 4_000_000, "None", qs(&t));
+        let n = tr.len(); out.trace("sa/classes-parties-and-values", format!("{} {}", header, list(&tr.ev)), n);
+    }
+    // 2. histories (K6): five rules of one type, five signers and four policies of one rule - middle / second-to-last /
+    //    first / last removed; a rule that expires and is re-created
+    {
+        let t = Sa::new(5, 5); let mut tr = Tr::new();
+        let ctxs: std::vec::Vec<Cx> = vec![(0, 0), (1, 0), (1, 1), (2, 5)];
+        let qs = |t: &Sa| t.queries(11, &ctxs);
+        let plain: std::vec::Vec<usize> = (0..5).filter(|i| !t.grumpy[*i]).collect();
+        for i in 0..5u64 { let (c, r) = t.add_rule(&(1, 0), i, None, &[(1, 0, 1 + i)], &[]); tr.sit(out, "sa.add_rule", "sa.s.add_rule", &c, r, qs(&t)); }               // ids 0..4
+        let (c, r) = rem_r(&t, 2); tr.sit(out, "sa.remove_rule", "sa.s.remove_middle_rule_of_five", &c, r, qs(&t));
+        let (c, r) = rem_r(&t, 3); tr.sit(out, "sa.remove_rule", "sa.s.remove_second_to_last_rule", &c, r, qs(&t));
+        let (c, r) = rem_r(&t, 0); tr.sit(out, "sa.remove_rule", "sa.s.remove_first_rule_of_type", &c, r, qs(&t));
+        let (c, r) = rem_r(&t, 4); tr.sit(out, "sa.remove_rule", "sa.s.remove_last_rule_of_type", &c, r, qs(&t));
+        let (c, r) = t.add_rule(&(1, 0), 9, None, &[(1, 0, 3)], &[]); tr.sit(out, "sa.add_rule", "sa.s.id_not_reused_after_removal", &c, r, qs(&t));                       // id 5
+        let (c, r) = t.add_rule(&(0, 0), 1, None, &[d(0), d(1), d(2), d(3), (1, 4, 1)], &plain[..4].iter().map(|p| (*p, true)).collect::<std::vec::Vec<_>>());
+        tr.sit(out, "sa.add_rule", "sa.s.add_rule_five_signers_four_policies", &c, r, qs(&t));                                                                          // id 6
+        let (c, r) = rem_s(&t, 6, &d(2)); tr.sit(out, "sa.remove_signer", "sa.s.remove_middle_signer_of_five", &c, r, qs(&t));
+        let (c, r) = rem_s(&t, 6, &d(3)); tr.sit(out, "sa.remove_signer", "sa.s.remove_second_to_last_signer", &c, r, qs(&t));
+        let (c, r) = rem_s(&t, 6, &d(0)); tr.sit(out, "sa.remove_signer", "sa.s.remove_first_signer", &c, r, qs(&t));
+        let (c, r) = rem_s(&t, 6, &(1, 4, 1)); tr.sit(out, "sa.remove_signer", "sa.s.remove_last_signer", &c, r, qs(&t));
+        let (c, r) = add_s(&t, 6, &d(2)); tr.sit(out, "sa.add_signer", "sa.s.readd_signer_after_removal", &c, r, qs(&t));
+        let (c, r) = rem_p(&t, 6, plain[1]); tr.sit(out, "sa.remove_policy", "sa.s.remove_second_policy_of_four", &c, r, qs(&t));
+        let (c, r) = rem_p(&t, 6, plain[2]); tr.sit(out, "sa.remove_policy", "sa.s.remove_second_to_last_policy", &c, r, qs(&t));
+        let (c, r) = rem_p(&t, 6, plain[0]); tr.sit(out, "sa.remove_policy", "sa.s.remove_first_policy", &c, r, qs(&t));
+        let (c, r) = add_p(&t, 6, plain[1], true); tr.sit(out, "sa.add_policy", "sa.s.readd_policy_after_removal", &c, r, qs(&t));
+        // expiry: the rule stays registered (and keeps its fingerprint) after valid_until has passed
+        let (c, r) = t.add_rule(&(2, 5), 4, Some(110), &[d(4)], &[]); tr.sit(out, "sa.add_rule", "sa.s.add_rule_expiring_soon", &c, r, qs(&t));                          // id 7
+        advance(&t.e, 20); tr.advance(out, "sa", 20, "None", qs(&t));                                                                                                  // ledger 120
+        let (c, r) = t.add_rule(&(2, 5), 4, None, &[d(4)], &[]); tr.sit(out, "sa.add_rule", "sa.s.fp_same_as_expired_rule", &c, r, qs(&t));
+        let (c, r) = add_s(&t, 7, &d(3)); tr.sit(out, "sa.add_signer", "sa.s.add_signer_to_expired_rule", &c, r, qs(&t));
+        let (c, r) = upd_u(&t, 7, Some(119)); tr.sit(out, "sa.update_until", "sa.s.update_until_expired_rule_still_in_the_past", &c, r, qs(&t));
+        let (c, r) = upd_u(&t, 7, Some(130)); tr.sit(out, "sa.update_until", "sa.s.update_until_revives_expired_rule", &c, r, qs(&t));
+        advance(&t.e, 600_000); tr.advance(out, "sa", 600_000, "None", qs(&t));
+        let (c, r) = rem_r(&t, 7); tr.sit(out, "sa.remove_rule", "sa.s.remove_expired_rule", &c, r, qs(&t));
+        let (c, r) = t.add_rule(&(2, 5), 4, None, &[d(3), d(4)], &[]); tr.sit(out, "sa.add_rule", "sa.s.fp_readd_after_expired_rule_removed", &c, r, qs(&t));             // id 8
+        let n = tr.len(); out.trace("sa/classes-histories", format!("{} {}", header, list(&tr.ev)), n);
+    }
+    // 3. sibling entry path (K3): the REAL example contract examples/multisig-smart-account/account - its constructor
+    //    (rule 0 through add_context_rule without any authorisation) and its SmartAccount trait methods (authorisation
+    //    mocked wholesale: C20 does not quantify over it) - same model, same monitor
+    {
+        let t = Sa::new(4, 4); let mut tr = Tr::new();
+        let ctxs: std::vec::Vec<Cx> = vec![(0, 0), (1, 0), (1, 1), (2, 5)];
+        let pa = (0..4).find(|i| !t.grumpy[*i]).unwrap_or(0);
+        let mut sv: Vec<Signer> = Vec::new(&t.e); sv.push_back(t.signer(&d(0))); sv.push_back(t.signer(&d(1)));
+        let mut pm: Map<Address, Val> = Map::new(&t.e); pm.set(t.pol.a[pa].clone(), 0u32.into_val(&t.e));
+        let ex = MultisigContractClient::new(&t.e, &t.e.register(MultisigContract, (sv.clone(), pm.clone())));
+        t.e.mock_all_auths();
+        let qs = |t: &Sa| -> std::vec::Vec<String> {
+            let mut q = vec![match tryv!(ex.try_get_context_rules_count()) { Some(n) => format!("(SqCount, SaNat {})", n), None => "(SqCount, SaTrap)".into() }];
+            for id in 0..=5u32 { let r = match ex.try_get_context_rule(&id) { Ok(Ok(r)) => okv(&t.rule_coq(&r)), _ => "Fail".into() }; q.push(format!("(SqRule {}, SaRule {})", id, r)); }
+            for cx in ctxs.iter() { let ct = t.ctx(cx);
+                let r = match ex.try_get_context_rules(&ct) { Ok(Ok(v)) => okv(&list(&v.iter().map(|r| t.rule_coq(&r)).collect::<std::vec::Vec<_>>())), _ => "Fail".into() };
+                q.push(format!("(SqRules {}, SaRules {})", t.ctx_coq(&ct), r)); }
+            q };
+        let unit2 = |x: Option<()>| -> Option<String> { x.map(|_| "None".to_string()) };
+        let ex_add = |cx: &Cx, name: &str, sgs: &[Sg], pols: &[(usize, bool)]| -> (String, Option<String>) {
+            let mut sv: Vec<Signer> = Vec::new(&t.e); for s in sgs { sv.push_back(t.signer(s)); }
+            let mut pm: Map<Address, Val> = Map::new(&t.e); for (p, ok) in pols { pm.set(t.pol.a[*p].clone(), (if *ok { 0u32 } else { 1u32 }).into_val(&t.e)); }
+            let r = match ex.try_add_context_rule(&t.ctx(cx), &SString::from_str(&t.e, name), &None, &sv, &pm) { Ok(Ok(r)) => Some(format!("(Some {})", t.rule_coq(&r))), _ => None };
+            let ptxt: std::vec::Vec<String> = pols.iter().map(|(p, ok)| format!("({}, {})", p, b(*ok))).collect();
+            (format!("SaAddRule {} {} None {} {}", t.cx_coq(cx), num_or_odd(name.as_bytes()), list(&sgs.iter().map(|s| t.sg_coq(s)).collect::<std::vec::Vec<_>>()), list(&ptxt)), r) };
+        // the constructor's rule: observed through get_context_rule(0)
+        let r0 = tryv!(ex.try_get_context_rule(&0)).map(|r| format!("(Some {})", t.rule_coq(&r)));
+        let c0 = format!("SaAddRule CDefault {} None {} {}", num_or_odd(b"multisig"), list(&[t.sg_coq(&d(0)), t.sg_coq(&d(1))]), list(&[format!("({}, true)", pa)]));
+        tr.sit(out, "sa.add_rule", "sa.s.example_constructor_rule", &c0, r0, qs(&t));
+        let (c, r) = ex_add(&(0, 0), "2", &[d(1), d(0)], &[(pa, true)]); tr.sit(out, "sa.add_rule", "sa.s.example_duplicate_of_constructor_rule", &c, r, qs(&t));
+        let (c, r) = ex_add(&(1, 0), "3", &[d(1), d(0)], &[]); tr.sit(out, "sa.add_rule", "sa.s.example_add_rule", &c, r, qs(&t));                                       // id 1
+        let (c, r) = (format!("SaRemovePolicy 0 {}", pa), unit2(tryv!(ex.try_remove_policy(&0, &t.pol.a[pa])))); tr.sit(out, "sa.remove_policy", "sa.s.example_remove_policy", &c, r, qs(&t));
+        let (c, r) = (format!("SaAddSigner 1 {}", t.sg_coq(&d(2))), unit2(tryv!(ex.try_add_signer(&1, &t.signer(&d(2)))))); tr.sit(out, "sa.add_signer", "sa.s.example_add_signer", &c, r, qs(&t));
+        let (c, r) = (format!("SaRemoveSigner 1 {}", t.sg_coq(&d(2))), unit2(tryv!(ex.try_remove_signer(&1, &t.signer(&d(2)))))); tr.sit(out, "sa.remove_signer", "sa.s.example_remove_signer", &c, r, qs(&t));
+        let (c, r) = (format!("SaAddPolicy 1 {} true", pa), unit2(tryv!(ex.try_add_policy(&1, &t.pol.a[pa], &0u32.into_val(&t.e))))); tr.sit(out, "sa.add_policy", "sa.s.example_add_policy", &c, r, qs(&t));
+        advance(&t.e, 4_000_000); tr.advance(out, "sa", 4_000_000, "None", qs(&t));
+        let (c, r) = ("SaUpdateName 1 8".to_string(), tryv!(ex.try_update_context_rule_name(&1, &SString::from_str(&t.e, "8"))).map(|x| format!("(Some {})", t.rule_coq(&x)))); tr.sit(out, "sa.update_name", "sa.s.example_update_name", &c, r, qs(&t));
+        let (c, r) = ("SaUpdateUntil 1 (Some 4000100)".to_string(), tryv!(ex.try_update_context_rule_valid_until(&1, &Some(4_000_100))).map(|x| format!("(Some {})", t.rule_coq(&x)))); tr.sit(out, "sa.update_until", "sa.s.example_update_until", &c, r, qs(&t));
+        let (c, r) = ("SaRemoveRule 0".to_string(), unit2(tryv!(ex.try_remove_context_rule(&0)))); tr.sit(out, "sa.remove_rule", "sa.s.example_remove_constructor_rule", &c, r, qs(&t));
+        let (c, r) = ex_add(&(0, 0), "4", &[d(0), d(1)], &[]); tr.sit(out, "sa.add_rule", "sa.s.example_readd_after_removal_new_id", &c, r, qs(&t));                        // id 2
+        let n = tr.len(); out.trace("sa/classes-example-contract", format!("{} {}", header, list(&tr.ev)), n);
+    }
+}
+
 fn run_sa(out: &mut Out, rng: &mut Rng) {
     let maxr = sal::MAX_CONTEXT_RULES as u64;
     let maxs = sal::MAX_SIGNERS as u64;
@@ -2007,7 +2686,8 @@ fn run_sa(out: &mut Out, rng: &mut Rng) {
     let now0 = 100u32;
     let header = format!("TrSA {} {} {} {}", maxr, maxs, maxp, now0);
     directed_sa(out, &header);
-    let na = if directed_only() { 0 } else if thorough { 600 } else { 70 } * scale;
+    classes_sa(out, &header);
+    let na = if directed_only() { 0 } else if thorough { 600 } else { 66 } * scale;
     for it in 0..na {
         let mode = it % 4; // 0,1: general; 2: rule-count limit; 3: signer / policy limits
         let naddr = if mode == 3 { (maxs + 3) as usize } else { 3 };
